@@ -5,6 +5,7 @@ import (
 	"go/token"
 	"go/types"
 	"reflect"
+	"sort"
 	"strings"
 
 	"verif/checker/eng"
@@ -27,6 +28,95 @@ import (
 //	    exit (V a named result: the returned operand; V a local: its value at
 //	    the exit).
 func respRelease(c *cx, id string, floor int) {
+	// sources: the session's blocking send methods, and (transitively) the
+	// library functions that hand such a response on to their own caller
+	// (acquire wrappers: commands.Execute, ...). The value is the index of the
+	// closable result.
+	sources := map[*types.Func]int{}
+	isSeed := func(fo *types.Func) bool {
+		if fo == nil || fo.Pkg() == nil || fo.Pkg().Path() != eng.ModPath {
+			return false
+		}
+		sig, _ := fo.Type().(*types.Signature)
+		if sig == nil || sig.Recv() == nil || !strings.HasPrefix(fo.Name(), "Send") || sig.Results().Len() != 2 {
+			return false
+		}
+		return strings.HasSuffix(eng.TypeStr(sig.Recv().Type()), "xmpp.Session") && hasMethod(sig.Results().At(0).Type(), "Close")
+	}
+	for changed := true; changed; {
+		changed = false
+		for _, f := range c.allFns() {
+			if f.Body == nil || f.Obj == nil {
+				continue
+			}
+			if _, done := sources[f.Obj]; done || isSeed(f.Obj) {
+				continue
+			}
+			sig := f.Sig()
+			if sig == nil || sig.Results().Len() < 2 || eng.TypeStr(sig.Results().At(sig.Results().Len()-1).Type()) != "error" {
+				continue
+			}
+			for _, cl := range f.AllCalls() {
+				fo := calleeFunc(f, cl)
+				if fo == nil {
+					continue
+				}
+				fo = fo.Origin()
+				ri, isSrc := sources[fo]
+				if !isSrc {
+					if !isSeed(fo) {
+						continue
+					}
+					ri = 0
+				}
+				// tail call: return source(...)
+				if rs, isRet := f.Graph().Parent(cl).(*ast.ReturnStmt); isRet && len(rs.Results) == 1 {
+					if csig, _ := fo.Type().(*types.Signature); csig != nil && csig.Results().Len() == sig.Results().Len() && ri < sig.Results().Len() && hasMethod(sig.Results().At(ri).Type(), "Close") {
+						if _, done := sources[f.Obj]; !done {
+							sources[f.Obj] = ri
+							changed = true
+						}
+					}
+					continue
+				}
+				as, _ := f.Graph().Parent(cl).(*ast.AssignStmt)
+				if as == nil || len(as.Rhs) != 1 || ri >= len(as.Lhs) {
+					continue
+				}
+				rid, _ := as.Lhs[ri].(*ast.Ident)
+				if rid == nil || rid.Name == "_" {
+					continue
+				}
+				rv := f.Info().ObjectOf(rid)
+				for _, rs := range f.Graph().Returns {
+					for k, res := range rs.Results {
+						if k >= sig.Results().Len() || !hasMethod(sig.Results().At(k).Type(), "Close") {
+							continue
+						}
+						uses := false
+						ast.Inspect(res, func(x ast.Node) bool {
+							if idn, ok := x.(*ast.Ident); ok && f.Info().ObjectOf(idn) == rv {
+								uses = true
+							}
+							return !uses
+						})
+						if uses {
+							if _, done := sources[f.Obj]; !done {
+								sources[f.Obj] = k
+								changed = true
+							}
+						}
+					}
+				}
+			}
+		}
+	}
+	var wrappers []string
+	for fo := range sources {
+		wrappers = append(wrappers, strings.TrimPrefix(eng.ObjID(fo), eng.ModPath+"/"))
+	}
+	sort.Strings(wrappers)
+	c.r.Note("%s: acquire wrappers (hand a response on to their caller): %s", id, strings.Join(wrappers, ", "))
 	n := 0
 	for _, f := range c.allFns() {
 		if f.Body == nil {
@@ -34,18 +124,19 @@ func respRelease(c *cx, id string, floor int) {
 		}
 		for _, cl := range f.AllCalls() {
 			fo := calleeFunc(f, cl)
-			if fo == nil || fo.Pkg() == nil || fo.Pkg().Path() != eng.ModPath {
+			if fo == nil {
 				continue
 			}
-			sig, _ := fo.Type().(*types.Signature)
-			if sig == nil || sig.Recv() == nil || !strings.HasPrefix(fo.Name(), "Send") || sig.Results().Len() != 2 {
-				continue
-			}
-			if !strings.HasSuffix(eng.TypeStr(sig.Recv().Type()), "xmpp.Session") || !hasMethod(sig.Results().At(0).Type(), "Close") {
-				continue
+			fo = fo.Origin()
+			ri, isSrc := sources[fo]
+			if !isSrc {
+				if !isSeed(fo) {
+					continue
+				}
+				ri = 0
 			}
 			n++
-			respReleaseSite(c, id, f, cl)
+			respReleaseSite(c, id, f, cl, ri)
 		}
 	}
 	c.r.Floor(id, "responses acquired from blocking send methods", n, floor)
@@ -61,7 +152,7 @@ func hasMethod(t types.Type, name string) bool {
 	return false
 }
 
-func respReleaseSite(c *cx, id string, f *eng.Fn, call *ast.CallExpr) {
+func respReleaseSite(c *cx, id string, f *eng.Fn, call *ast.CallExpr, ri int) {
 	g := f.Graph()
 	what := "response of " + f.CalleeID(call)
 	as, _ := g.Parent(call).(*ast.AssignStmt)
@@ -73,11 +164,11 @@ func respReleaseSite(c *cx, id string, f *eng.Fn, call *ast.CallExpr) {
 		c.r.Check(id, f, what, "E-res: the response of a blocking send is bound to a variable and released", call.Pos(), false, "the response is neither assigned nor returned")
 		return
 	}
-	if len(as.Lhs) != 2 || len(as.Rhs) != 1 {
+	if len(as.Lhs) < 2 || len(as.Rhs) != 1 || ri >= len(as.Lhs) {
 		c.r.Check(id, f, what, "E-res: the response of a blocking send is bound to a variable and released", call.Pos(), false, "unexpected assignment form")
 		return
 	}
-	rid, _ := as.Lhs[0].(*ast.Ident)
+	rid, _ := as.Lhs[ri].(*ast.Ident)
 	if rid == nil || rid.Name == "_" {
 		c.r.Check(id, f, what, "E-res: the response of a blocking send is bound to a variable and released", call.Pos(), false, "the response is discarded: it can never be closed and the serve loop stalls")
 		return
@@ -89,7 +180,7 @@ func respReleaseSite(c *cx, id string, f *eng.Fn, call *ast.CallExpr) {
 	}
 	apt, _ := g.Where(as)
 	cn := f.Norm(call, &apt)
-	failPat := "!eq(" + cn + "#1,nil)"
+	failPat := "!eq(" + cn + "#" + itoa(len(as.Lhs)-1) + ",nil)"
 
 	// aliases of r inside closures: `r := r`
 	isR := func(e ast.Expr) bool {
